@@ -14,8 +14,8 @@
    weights vector, every table and, where floats matter, every rounding function with the IEEE-754
    laws [ieee_laws] (monotone; 0, 1, 2^63, 2^-63 exact). [nz s]: no 63-bit draw of the stream is 0
    (FlipWeightedCoin(1.0) is false on a zero draw, probability 2^-63 each). *)
-From UV Require Import Base.Common Model.Prng Proofs.PrngP Model.Randomized Proofs.RandomizedP Proofs.RandomizedW.
-From Coq Require Import QArith Permutation.
+From UV Require Import Base.Common Model.Prng Proofs.PrngP Model.Randomized Proofs.RandomizedP Proofs.RandomizedW Proofs.RandomizedS Proofs.RandomizedC Proofs.RandomizedT.
+From Coq Require Import QArith Permutation Sorted.
 Open Scope N_scope.
 
 Theorem C09_deterministic : forall rnd fuel tb v w sn np s salted p q,
@@ -61,8 +61,39 @@ Theorem C09_alps_needs_alpn : forall rnd fuel tb v w sn np s salted p q,
 Proof. exact alps_needs_alpn. Qed.
 Print Assumptions C09_alps_needs_alpn.
 
-(* weight <= 0 (or -Inf): the optional feature is absent unless a TLS 1.3 rule forces it. (The sigalg, curve and
-   key-share coins are covered by the runner's oracle on every case and, for the key shares, by the _holds_if theorems.) *)
+(* ---- every coin flip: the table [coins] (Model/RandomizedCoins.v) has one row per FlipWeightedCoin(id.Weights.X)
+   site of generateRandomizedSpec, in source order (a CCoins correspondence case compares the rows' weight fields
+   with the id.Weights.X references and the number of FlipWeightedCoin calls found in the function's source text).
+   For EVERY row: weight <= 0 (or -Inf) makes the feature present exactly when a TLS 1.3 rule / the -ALPN id
+   forces it ([c_forced], [False] for most rows); weight >= 1 (or +Inf) makes it present whenever the coin is
+   flipped at all ([c_app]), provided no 63-bit draw is zero. ---- *)
+Theorem C09_coins : forall rnd, ieee_laws rnd -> forall c, In c coins ->
+  forall fuel tb v w sn np s salted p, generate rnd fuel tb v w sn np s salted = Ok p ->
+  (w_le0 (wfield (c_field c) w) -> (c_feature c tb v p <-> c_forced c v p)) /\
+  (w_ge1 (wfield (c_field c) w) -> nz s -> nz salted -> c_app c v p -> c_feature c tb v p).
+Proof. exact coins_all. Qed.
+Print Assumptions C09_coins.
+(* the rows, visibly: (source line, weights field index) *)
+Example C09_coins_rows : map (fun c => (c_line c, c_field c)) coins =
+  [(2980, 0); (2995, 1); (3171, 2); (3029, 3); (3032, 4); (3035, 5); (3038, 6); (3056, 7); (3059, 7); (3063, 8);
+   (3089, 9); (3094, 10); (3097, 11); (3100, 12); (3103, 13); (3110, 14); (3113, 15); (3116, 15); (3141, 16)].
+Proof. reflexivity. Qed.
+(* the exceptions, exactly: which rows are forced / conditional *)
+Example C09_coins_forced :
+  (forall v p, c_forced coin_alpn v p <-> v = VALPN) /\
+  (forall v p, c_forced coin_pss256 v p <-> sp_max p = VersionTLS13) /\
+  (forall v p, c_forced coin_x25519 v p <-> sp_max p = VersionTLS13) /\
+  (forall v p, c_forced coin_padding v p <-> sp_max p = VersionTLS13) /\
+  (forall c, In c coins -> c <> coin_alpn -> c <> coin_pss256 -> c <> coin_x25519 -> c <> coin_padding ->
+     forall v p, ~ c_forced c v p).
+Proof.
+  repeat split; try (intros H; exact H).
+  intros c Hin N1 N2 N3 N4 v p. cbn [coins In] in Hin.
+  repeat (destruct Hin as [<-|Hin]; [try contradiction; try (intros []) |]); contradiction.
+Qed.
+
+(* the two legacy summaries below are instances of C09_coins, kept for readability *)
+(* weight <= 0 (or -Inf): the optional feature is absent unless a TLS 1.3 rule forces it *)
 Theorem C09_weight0_absent : forall rnd, ieee_laws rnd -> forall fuel tb v w sn np s salted p,
   generate rnd fuel tb v w sn np s salted = Ok p ->
   (w_le0 (w_tls13 w) -> sp_max p = VersionTLS12) /\
@@ -95,6 +126,24 @@ Theorem C09_weight0_no_removal : forall rnd, ieee_laws rnd -> forall s0 w s out 
   removeRandomCiphers rnd s0 w s = Ok (out, s') -> w_le0 w -> out = s0.
 Proof. exact weight0_no_removal. Qed.
 Print Assumptions C09_weight0_no_removal.
+
+(* ---- the cipher sort has exactly one correct result ----
+   math/rand Perm yields, for every stream, a permutation of 0..n-1; the (isObsolete, randomTag) keys are therefore
+   pairwise distinct, and ANY list that is a permutation of the sortableCiphers and sorted w.r.t. Less (for i < j: not
+   Less(j,i), which is what sort.Sort guarantees, stable or not) equals the model's insertion sort. *)
+Theorem C09_perm_is_permutation : forall fuel n s l r, perm fuel n s = Some (l, r) ->
+  length l = n /\ NoDup l /\ Forall (fun x => (0 <= x < Z.of_nat n)%Z) l.
+Proof. exact perm_spec. Qed.
+Print Assumptions C09_perm_is_permutation.
+Theorem C09_sort_unique : forall fuel tb s pm r l',
+  perm fuel (length (t_suites tb)) s = Some (pm, r) ->
+  Permutation (sortable tb pm) l' -> StronglySorted (fun a b => less b a = false) l' ->
+  l' = isort (sortable tb pm).
+Proof. exact sort_unique. Qed.
+Print Assumptions C09_sort_unique.
+Theorem C09_shuffled_is_that_sort : forall fuel tb s out s', shuffledCiphers fuel tb s = Ok (out, s') ->
+  exists pm r, perm fuel (length (t_suites tb)) s = Some (pm, r) /\ out = map sc_suite (isort (sortable tb pm)).
+Proof. exact shuffledCiphers_is_sort. Qed.
 
 (* ---- key shares vs supported_groups: refuted at full strength (F-09) ---- *)
 Definition C09_keyshare_in_groups_full : Prop := forall rnd fuel tb v w sn np s salted p,
